@@ -26,6 +26,12 @@ var transferEvent = dig.Event{Name: "Transfer", Type: "event", Inputs: []dig.Inp
 	{Indexed: true, Name: "to", Type: "address", Column: "ev_to"},
 	{Name: "value", Type: "uint256", Column: "ev_value"},
 }}
+var approvalEvent = dig.Event{Name: "Approval", Type: "event", Inputs: []dig.Input{
+	{Indexed: true, Name: "owner", Type: "address", Column: "ev_owner"},
+	{Indexed: true, Name: "spender", Type: "address", Column: "ev_spender"},
+	{Name: "value", Type: "uint256", Column: "ev_value"},
+}}
+var approvalCols = []wpg.Column{{Name: "ev_owner", Type: "bytea"}, {Name: "ev_spender", Type: "bytea"}, {Name: "ev_value", Type: "numeric"}}
 var transferCols = []wpg.Column{{Name: "ev_from", Type: "bytea"}, {Name: "ev_to", Type: "bytea"}, {Name: "ev_value", Type: "numeric"}}
 
 // chain whose first log of every tx is an ERC-20 Transfer and second a decoy
